@@ -46,8 +46,9 @@ func C19(c *Ctx) {
 	r.Rule("R19.2", "per-account scoping: inside a loop over a per-account map (account -> txs), a removal applied to a structure that belongs to one account (obtained by looking the loop's account up) receives only that account's transactions: the map handed to it is made in the same iteration, not the ranged map itself and not a map defined before the loop that collects the entries of several accounts.")
 	r.Rule("R19.3", "index pairing: the commit path and the eviction path remove a transaction from the same set of indices (per-account nonce index, priority, parking lot, ttl, arrival-time) and both drop its hash from txHashMap.")
 	r.Rule("R19.4", "ready counter: priorityNonBatchSize is written only in processDirtyAccount (+ number of newly ready), generateBlock (- batch length, reset) and processCommitTransactions (clamped to exactly priorityIndex.size(), no arithmetic on the bound), and HasPendingRequest reports exactly counter > 0.")
-	r.Rule("R19.5", "index key agreement: every probe / removal on one of the pool's ordered indices builds its key the way the insertions into that index do (same key type; for timestamped keys the same timestamp source: the transaction's own timestamp vs. a recorded local time).")
+	r.Rule("R19.5", "index key agreement: every probe / removal on one of the pool's ordered indices builds its key the way the insertions into that index do (same key type; for timestamped keys the same timestamp source: the transaction's own timestamp vs. a recorded local time); an index wrapper that records the time of its keys in a side map (items) deletes an entry under the time it looked up there, never under a new one.")
 	c.c19KeyAgreement()
+	c.c19RecordedKey()
 	r.NotDecided = append(r.NotDecided, "liveness ('included in one of the next batches'); drift of the counter over histories; goroutine confinement of the pool (see C20 R20.5)")
 
 	ra := c.fn("R19.1", mpPrefix+"RemoveAliveTimeoutTxs")
